@@ -50,7 +50,11 @@ func startFallback() {
 		switch fbOutcome.Load().(string) {
 		case "useful":
 			m.SetReply(req)
-			m.Answer = []dns.RR{&dns.RFC3597{Hdr: dns.RR_Header{Name: q.Name, Rrtype: q.Qtype, Class: q.Qclass, Ttl: 60}, Rdata: "00"}}
+			rdata := map[uint16]string{dns.TypeA: "c0000209", dns.TypeAAAA: "20010db8000000000000000000000009", dns.TypeTXT: "026f6b"}[q.Qtype]
+			if rdata == "" {
+				rdata = "00"
+			}
+			m.Answer = []dns.RR{&dns.RFC3597{Hdr: dns.RR_Header{Name: q.Name, Rrtype: q.Qtype, Class: q.Qclass, Ttl: 60}, Rdata: rdata}}
 		case "nxdomain":
 			m.SetRcode(req, dns.RcodeNameError)
 		case "refused":
